@@ -5,11 +5,11 @@ wt=$1; m=$2; feat=${3:+--features $3}
 cd "$wt" || exit 2
 git checkout -q -- . ; rm -f tests/seeded_demo.rs
 cp "$m/seeded_demo.rs" tests/seeded_demo.rs
-base=$(timeout 300 cargo test --offline $feat --test seeded_demo 2>&1 | grep -E "^test result" | tail -1)
+base=$(timeout 300 cargo test --offline $feat --test seeded_demo 2>&1 | grep -aE "^test result" | tail -1)
 git apply --whitespace=nowarn "$m/patch.diff" || { echo "patch does not apply"; exit 2; }
-withp=$(timeout 300 cargo test --offline $feat --test seeded_demo 2>&1 | grep -E "^test result" | tail -1)
+withp=$(timeout 300 cargo test --offline $feat --test seeded_demo 2>&1 | grep -aE "^test result" | tail -1)
 rm -f tests/seeded_demo.rs
-suite=$(cargo test --workspace --no-fail-fast --offline 2>&1 | grep -E "^test result" | tr '\n' '|')
+suite=$(cargo test --workspace --no-fail-fast --offline 2>&1 | grep -aE "^test result" | tr '\n' '|')
 git checkout -q -- . ; rm -f tests/seeded_demo.rs
 echo "demo without change: $base"
 echo "demo with change:    $withp"
